@@ -27,7 +27,7 @@ CHECK = dict(
     assumptions=["clang-14 and gcc generate correct code for defined C",
                  "the generated C has no undefined or implementation-divergent behaviour",
                  "weaker than the property: only instructions clang emits and results that reach memory or the return value are observed"],
-    timeout={"quick": 900, "thorough": 3400},
+    timeout={"quick": 1500, "thorough": 7000},
     exhaustive={"quick": False, "thorough": False},
     overlay="plain",
     technique="runtime monitoring: differential execution of compiler output (miasm) against native execution of the same source",
@@ -39,7 +39,7 @@ MAX_REPORTS = 3
 TARGETS = ["arm", "thumb", "aarch64", "mips", "mipsel", "ppc"]
 OPTS = ["-O0", "-O1", "-O2", "-Os"]
 QUICK = dict(funcs=12, inputs=3, levels=1, gcc_funcs=0, nst=(5, 9))
-THOROUGH = dict(funcs=420, inputs=5, levels=2, gcc_funcs=10, nst=(5, 11))
+THOROUGH = dict(funcs=160, inputs=5, levels=2, gcc_funcs=8, nst=(5, 11))
 
 
 def shards(tier, seed, scale):
